@@ -131,10 +131,13 @@ def _contains_return(st: ast.AST) -> bool:
     return any(isinstance(n, ast.Return) for n in _walk_own(st))
 
 
-def _structure_returns(stmts: List[ast.stmt], ret: str):
-    """rewrite a block whose returns are all in tail position of if/else chains into a return-free block that assigns the
-    result to `ret`.  Returns (new statements, every path assigned ret) or None when a return sits in a loop / try / with or
-    after a partially returning conditional (that would need a flag: not expanded)."""
+def _structure_returns(stmts: List[ast.stmt], ret: str, _budget: Optional[List[int]] = None):
+    """rewrite a block with early returns into a return-free block that assigns the result to `ret`: the statements following
+    a returning `if` are moved (copied) into the branches that fall through, so every path keeps its own order of effects.
+    Returns (new statements, every path assigned ret) or None when a return sits in a loop / try / with, or the copying would
+    blow up (more than 6 returning conditionals in sequence)."""
+    if _budget is None:
+        _budget = [64]
     out: List[ast.stmt] = []
     for i, st in enumerate(stmts):
         if isinstance(st, ast.Return):
@@ -142,26 +145,17 @@ def _structure_returns(stmts: List[ast.stmt], ret: str):
             out.append(ast.copy_location(ast.Assign(targets=[ast.Name(id=ret, ctx=ast.Store())], value=v), st))
             return out, True
         if isinstance(st, ast.If) and _contains_return(st):
-            b = _structure_returns(st.body, ret)
-            o = _structure_returns(st.orelse, ret)
+            rest = list(stmts[i + 1:])
+            _budget[0] -= 1
+            if _budget[0] < 0:
+                return None
+            b = _structure_returns(list(st.body) + copy.deepcopy(rest), ret, _budget)
+            o = _structure_returns(list(st.orelse) + copy.deepcopy(rest), ret, _budget)
             if b is None or o is None:
                 return None
             (bs, bl), (os_, ol) = b, o
-            rest = stmts[i + 1:]
-            if bl and ol:
-                out.append(ast.copy_location(ast.If(test=st.test, body=bs, orelse=os_), st))
-                return out, True
-            if not bl and not ol:
-                return None
-            r = _structure_returns(rest, ret)
-            if r is None:
-                return None
-            rs, rl = r
-            if bl:
-                out.append(ast.copy_location(ast.If(test=st.test, body=bs, orelse=os_ + rs), st))
-            else:
-                out.append(ast.copy_location(ast.If(test=st.test, body=bs + rs, orelse=os_), st))
-            return out, rl
+            out.append(ast.copy_location(ast.If(test=st.test, body=bs or [ast.Pass()], orelse=os_), st))
+            return out, bl and ol
         if _contains_return(st):
             return None
         out.append(st)
@@ -388,6 +382,60 @@ class Inliner:
             st = T().visit(st)
         return ast.fix_missing_locations(st)
 
+    _PURE_CALLS = {"bool", "float", "int", "len", "abs", "str", "tuple", "list"}
+
+    def _hoist(self, fi, st: ast.stmt, depth: int) -> Optional[List[ast.stmt]]:
+        """`return f(self._helper(a) <= tol)` with a statement-like NEW helper: evaluate the helper first into a temporary (expanded
+        in place), then the statement with the temporary.  Done only when the helper call is the first impure thing the statement
+        evaluates (everything evaluated before it is a name, constant, attribute or a pure builtin), so the order of effects is kept."""
+        if not isinstance(st, (ast.Return, ast.Assign, ast.Expr, ast.AugAssign, ast.AnnAssign)) or depth > 3:
+            return None
+        root = st.value if not isinstance(st, ast.AugAssign) else st.value
+        if root is None:
+            return None
+        order: List[ast.AST] = []
+
+        def visit(n):
+            # evaluation order: operands left to right, then the node itself
+            if isinstance(n, (ast.Lambda, ast.ListComp, ast.SetComp, ast.DictComp, ast.GeneratorExp, ast.IfExp, ast.BoolOp)):
+                order.append(n)   # conditional / deferred evaluation inside: treated as opaque
+                return
+            for c in ast.iter_child_nodes(n):
+                visit(c)
+            order.append(n)
+        visit(root)
+        target = None
+        for n in order:
+            if isinstance(n, ast.Call):
+                callee, _ = self._target(fi, n)
+                if callee is not None and n is not root and self.expr_value_of(callee) is None:
+                    target = n
+                    break
+                d = n.func.id if isinstance(n.func, ast.Name) else None
+                if d in self._PURE_CALLS:
+                    continue
+                return None   # some other call is evaluated first
+            if isinstance(n, (ast.Lambda, ast.ListComp, ast.SetComp, ast.DictComp, ast.GeneratorExp, ast.IfExp, ast.BoolOp, ast.Await, ast.Yield, ast.YieldFrom, ast.NamedExpr)):
+                return None
+        if target is None:
+            return None
+        self.counter += 1
+        tmp = f"__inl{self.counter}_val"
+        asg = ast.copy_location(ast.Assign(targets=[ast.Name(id=tmp, ctx=ast.Store())], value=target), st)
+        ast.fix_missing_locations(asg)
+        rep = self.expand_stmt(fi, asg, depth)
+        if rep is None:
+            return None
+
+        class R(ast.NodeTransformer):
+            def visit_Call(self, node):
+                if node is target:
+                    return ast.copy_location(ast.Name(id=tmp, ctx=ast.Load()), node)
+                return self.generic_visit(node)
+        new_st = R().visit(st)
+        ast.fix_missing_locations(new_st)
+        return rep + self.expand_block(fi, [new_st], depth + 1)
+
     def expand_block(self, fi, body: List[ast.stmt], depth: int = 0) -> List[ast.stmt]:
         if depth > 4:
             return body
@@ -396,6 +444,10 @@ class Inliner:
             rep = self.expand_stmt(fi, st, depth)
             if rep is not None:
                 out += rep
+                continue
+            h = self._hoist(fi, st, depth)
+            if h is not None:
+                out += h
                 continue
             if isinstance(st, ast.If):
                 # `if self._helper(..):` with a statement-like helper: evaluate it first, then test the result
